@@ -549,4 +549,88 @@ func (e *Engine) dischargeAll(obls []*Obligation, workdir string, budgetS, worke
 	}
 	close(ch)
 	wg.Wait()
+	e.escalate(obls, workdir, budgetS)
+}
+
+// escalate gives obligations that stayed undecided (no model, no proof) a
+// second, much longer attempt once the machine is otherwise idle: every back
+// end and several heuristic seeds at once.  A provable obligation that was
+// merely unlucky under load must not become a false alarm; one that is really
+// broken stays undecided and is reported.  At most eight obligations are
+// escalated - more than that is not bad luck (the bound is four).
+func (e *Engine) escalate(obls []*Obligation, workdir string, budgetS int) {
+	var und []int
+	for i, o := range obls {
+		if (o.Status == "timeout" || o.Status == "unknown") && o.Kind != "cover" {
+			und = append(und, i)
+		}
+	}
+	if len(und) == 0 || len(und) > 4 {
+		return
+	}
+	long := budgetS * 4
+	if long > 90 {
+		long = 90
+	}
+	type variant struct {
+		name, bin string
+		args      []string
+	}
+	vars := []variant{
+		{"z3-5.1.0", "z3-new", nil},
+		{"cvc5-1.0", "cvc5", nil},
+		{"z3-4.8.12", "z3", nil},
+		{"z3-5.1.0/seed7", "z3-new", []string{"smt.random_seed=7", "sat.random_seed=7"}},
+		{"z3-5.1.0/seed23", "z3-new", []string{"smt.random_seed=23", "sat.random_seed=23", "smt.arith.random_initial_value=true"}},
+		{"z3-5.1.0/seed101", "z3-new", []string{"smt.random_seed=101", "sat.random_seed=101"}},
+		{"z3-4.8.12/seed11", "z3", []string{"smt.random_seed=11"}},
+	}
+	sem := make(chan struct{}, 2)
+	var wg sync.WaitGroup
+	for _, i := range und {
+		i := i
+		wg.Add(1)
+		go func() {
+			defer wg.Done()
+			sem <- struct{}{}
+			defer func() { <-sem }()
+			o := obls[i]
+			file := filepath.Join(workdir, fmt.Sprintf("q%05d.smt2", i))
+			if _, err := os.Stat(file); err != nil {
+				if os.WriteFile(file, []byte(e.buildQuery(o, false)), 0o644) != nil {
+					return
+				}
+			}
+			start := time.Now()
+			ctx, cancel := context.WithCancel(context.Background())
+			defer cancel()
+			ch := make(chan solveResult, len(vars))
+			for _, v := range vars {
+				v := v
+				go func() {
+					sp := solverSpec{name: v.name, bin: v.bin, args: func(t int, f string) []string {
+						if v.bin == "cvc5" {
+							return []string{fmt.Sprintf("--tlimit=%d", t*1000), "--strings-exp", f}
+						}
+						return append([]string{fmt.Sprintf("-T:%d", t)}, append(append([]string{}, v.args...), f)...)
+					}}
+					ch <- runSolver(ctx, sp, long, file)
+				}()
+			}
+			for k := 0; k < len(vars); k++ {
+				rr := <-ch
+				if rr.status == "unsat" {
+					o.Status = "proved"
+					o.Solver = rr.solver + "/escalated"
+					o.TimeS += time.Since(start).Seconds()
+					if os.Getenv("GOVC_KEEPALL") == "" {
+						os.Remove(file)
+					}
+					return
+				}
+			}
+			o.TimeS += time.Since(start).Seconds()
+		}()
+	}
+	wg.Wait()
 }
